@@ -13,6 +13,12 @@ Theorem C06_current_tree_discipline : forallb (entry_ok tree_lock tree_prot) ent
 Proof. vm_compute. reflexivity. Qed.
 Print Assumptions C06_current_tree_discipline.
 
+(* every operation is one critical section of the tree lock *)
+Eval vm_compute in filter (fun n => negb (single_region tree_lock tree_prot n)) entry_points.
+Theorem C06_current_tree_single_region : forallb (single_region tree_lock tree_prot) entry_points = true.
+Proof. vm_compute. reflexivity. Qed.
+Print Assumptions C06_current_tree_single_region.
+
 Theorem C06_current_tree_memo_discipline : forallb (entry_ok memo_lock memo_prot) entry_points = true.
 Proof. vm_compute. reflexivity. Qed.
 Print Assumptions C06_current_tree_memo_discipline.
